@@ -193,6 +193,9 @@ func (c02) Exec(h []Ev) []Ev {
 				var p packet.Packet
 				copy(p[:], GB(e["before"]))
 				d := GB(e["data"])
+				if len(d) == 0 && GI0(e["ord"])%2 == 1 {
+					d = nil // a payload of zero bytes may be handed over as a nil slice
+				}
 				dk := append([]byte(nil), d...)
 				n, err := p.SetPayload(d)
 				e["n"] = n
@@ -210,7 +213,11 @@ func (c02) Exec(h []Ev) []Ev {
 			case "setpayload_fn":
 				var p packet.Packet
 				copy(p[:], GB(e["before"]))
-				e["n"] = packet.SetPayload(&p, GB(e["data"]))
+				if d := GB(e["data"]); len(d) == 0 && GI0(e["ord"])%2 == 1 {
+					e["n"] = packet.SetPayload(&p, nil)
+				} else {
+					e["n"] = packet.SetPayload(&p, d)
+				}
 				e["after"] = B(p[:])
 			case "create":
 				pid, cc := GI(e["pid"]), uint8(GI(e["cc"]))
